@@ -3,7 +3,7 @@
 of the repository (outside /repo and /verif), run the quick check against it and require that the
 expected rule fires (or, for patches marked `expect: silent`, that the check stays green).
 
-usage: selftest/run.py [Cxx ...]        exit 0 iff every mutant behaved as expected
+usage: selftest/run.py [Cxx | part-of-a-patch-name ...]        exit 0 iff every mutant behaved as expected
 """
 import glob
 import os
@@ -64,7 +64,7 @@ def main():
     n = 0
     for p in patches:
         prop = os.path.basename(p).split('-')[0]
-        if props and prop not in props:
+        if props and prop not in props and not any(len(a) > 3 and a in os.path.basename(p) for a in props):
             continue
         n += 1
         ok, msg = run_one(prop, p)
